@@ -151,6 +151,7 @@ func Transform(pkgs []*packages.Package, excluded func(filename string) bool) *R
 	in.fset = pkgs[0].Fset
 	in.deconvert(pkgs, excluded)
 	in.normalizeWaitGroupGo(pkgs, excluded)
+	in.normalizeErrorsIs(pkgs, excluded)
 	in.normalizeRangeInt(pkgs, excluded)
 	in.normalizeLibraryLoops(pkgs, excluded)
 	in.findClosures(pkgs, excluded)
@@ -957,6 +958,40 @@ func (in *inliner) expand(pk *packages.Package, file *ast.File, st *site, ownerD
 		}
 		return e, true
 	}
+	// every variable, constant and type the callee declares (receiver,
+	// parameters and named results included) gets a name of its own in the
+	// caller: a function literal of the caller that ends up inside the
+	// inlined block (it was an argument) must keep seeing the caller's
+	// variables, whatever the callee calls its own
+	ren := func(name string) string {
+		if name == "" || name == "_" {
+			return name
+		}
+		return prefix + name
+	}
+	declLo, declHi := c.decl.Pos(), c.decl.End()
+	if c.lit != nil {
+		declLo, declHi = c.lit.Pos(), c.lit.End()
+	}
+	calleeLocal := func(obj types.Object) bool {
+		switch o := obj.(type) {
+		case *types.Var:
+			if o.IsField() {
+				return false
+			}
+		case *types.Const:
+		case *types.TypeName:
+			if _, isTP := o.Type().(*types.TypeParam); isTP {
+				return false
+			}
+		default:
+			return false
+		}
+		if obj.Parent() == nil || obj.Parent() == c.pkg.Types.Scope() || obj.Parent() == types.Universe {
+			return false
+		}
+		return obj.Pos() >= declLo && obj.Pos() < declHi
+	}
 	// parameters bound to function literals (see below): parameter -> fresh name
 	litParam := map[*types.Var]string{}
 	// receiver and arguments, in evaluation order
@@ -990,7 +1025,7 @@ func (in *inliner) expand(pk *packages.Package, file *ast.File, st *site, ownerD
 		if c.decl.Recv != nil && len(c.decl.Recv.List) == 1 && len(c.decl.Recv.List[0].Names) == 1 {
 			name = c.decl.Recv.List[0].Names[0].Name
 		}
-		binds = append(binds, bind{name, tmp})
+		binds = append(binds, bind{ren(name), tmp})
 	}
 	for i := 0; i < nparams; i++ {
 		pt := sig.Params().At(i).Type()
@@ -1039,7 +1074,7 @@ func (in *inliner) expand(pk *packages.Package, file *ast.File, st *site, ownerD
 		tmp := fmt.Sprintf("%sa%d", prefix, i)
 		pre = append(pre, &ast.DeclStmt{Decl: &ast.GenDecl{Tok: token.VAR, Specs: []ast.Spec{&ast.ValueSpec{Names: []*ast.Ident{ast.NewIdent(tmp)}, Type: te, Values: vals}}}})
 		pre = append(pre, &ast.AssignStmt{Lhs: []ast.Expr{ast.NewIdent("_")}, Tok: token.ASSIGN, Rhs: []ast.Expr{ast.NewIdent(tmp)}})
-		binds = append(binds, bind{sig.Params().At(i).Name(), tmp})
+		binds = append(binds, bind{ren(sig.Params().At(i).Name()), tmp})
 	}
 	var results []string
 	for i := 0; i < sig.Results().Len(); i++ {
@@ -1073,7 +1108,7 @@ func (in *inliner) expand(pk *packages.Package, file *ast.File, st *site, ownerD
 	// before the parameters are bound (a parameter may shadow a type name)
 	var namedRes []string
 	for i := 0; i < sig.Results().Len(); i++ {
-		rn := sig.Results().At(i).Name()
+		rn := ren(sig.Results().At(i).Name())
 		namedRes = append(namedRes, rn)
 		if rn == "" || rn == "_" {
 			continue
@@ -1088,16 +1123,25 @@ func (in *inliner) expand(pk *packages.Package, file *ast.File, st *site, ownerD
 		if path, ok := pkgNames[orig]; ok {
 			cp.Name = q.nameOf(path)
 		}
-		if len(litParam) > 0 {
-			o := orig
-			for in.origOf[o] != nil {
-				o = in.origOf[o]
+		o := orig
+		for in.origOf[o] != nil {
+			o = in.origOf[o]
+		}
+		obj := c.pkg.TypesInfo.Uses[o]
+		if obj == nil {
+			obj = c.pkg.TypesInfo.Defs[o]
+		}
+		if obj == nil {
+			return
+		}
+		if v, _ := obj.(*types.Var); v != nil {
+			if fresh, ok := litParam[v]; ok {
+				cp.Name = fresh
+				return
 			}
-			if v, _ := c.pkg.TypesInfo.Uses[o].(*types.Var); v != nil {
-				if fresh, ok := litParam[v]; ok {
-					cp.Name = fresh
-				}
-			}
+		}
+		if calleeLocal(obj) && cp.Name == obj.Name() {
+			cp.Name = ren(cp.Name)
 		}
 	}).(*ast.BlockStmt)
 	// labels of nested, already expanded helpers must stay unique per function
